@@ -161,6 +161,7 @@ pub enum InternallyTagged {
 	B { u: UnitStruct, m: std::marker::PhantomData<u8> },
 	C,
 	D { o: Option<bool>, s: String },
+	E { f: F64, g: F32, v: Vec<F64> },
 }
 
 #[derive(Clone, Debug, PartialEq, Serialize, Deserialize)]
@@ -170,6 +171,8 @@ pub enum AdjacentlyTagged {
 	B(u8, String),
 	C { u: (), n: i16 },
 	D,
+	E(F64),
+	F { x: F32, y: (F64, u8) },
 }
 
 #[derive(Clone, Debug, PartialEq, Serialize, Deserialize)]
@@ -179,12 +182,15 @@ pub enum Untagged {
 	V(String),
 	W(Vec<u8>),
 	X { only: UnitStruct },
+	F(F64),
+	G { fl: F64, opt: Option<F32> },
 }
 
 #[derive(Clone, Debug, PartialEq, Serialize, Deserialize)]
 pub struct FlatInner {
 	pub u: (),
 	pub n: u8,
+	pub x: F64,
 	pub p: std::marker::PhantomData<String>,
 }
 
@@ -354,6 +360,24 @@ fn gen_f64(rng: &mut Rng) -> f64 {
 	}
 }
 
+fn gen_finite_f64(rng: &mut Rng) -> f64 {
+	loop {
+		let x = gen_f64(rng);
+		if x.is_finite() {
+			return x;
+		}
+	}
+}
+
+fn gen_finite_f32(rng: &mut Rng) -> f32 {
+	loop {
+		let x = gen_f32(rng);
+		if x.is_finite() {
+			return x;
+		}
+	}
+}
+
 fn gen_f32(rng: &mut Rng) -> f32 {
 	match rng.below(10) {
 		0 => 0.0,
@@ -493,19 +517,24 @@ pub fn gen_datum(rng: &mut Rng, depth: usize) -> Datum {
 		51 => Datum::Shown(Shown(gen_int!(rng, u32))),
 		52 => Datum::ShownKeys((0..short(rng)).map(|_| (Shown(gen_int!(rng, u32)), gen_int!(rng, i8))).collect()),
 		53 => Datum::Bytes(Bytes((0..len(rng)).map(|_| gen_int!(rng, u8)).collect())),
-		54 => Datum::ITagged(match rng.below(4) {
+		54 => Datum::ITagged(match rng.below(5) {
+			4 => InternallyTagged::E { f: F64(gen_finite_f64(rng)), g: F32(gen_finite_f32(rng)), v: (0..short(rng)).map(|_| F64(gen_finite_f64(rng))).collect() },
 			0 => InternallyTagged::A { x: (), y: gen_int!(rng, u8) },
 			1 => InternallyTagged::B { u: UnitStruct, m: std::marker::PhantomData },
 			2 => InternallyTagged::C,
 			_ => InternallyTagged::D { o: [None, Some(true)][rng.below(2)], s: gen_str(rng) },
 		}),
-		55 => Datum::ATagged(match rng.below(4) {
+		55 => Datum::ATagged(match rng.below(6) {
+			4 => AdjacentlyTagged::E(F64(gen_finite_f64(rng))),
+			5 => AdjacentlyTagged::F { x: F32(gen_finite_f32(rng)), y: (F64(gen_finite_f64(rng)), gen_int!(rng, u8)) },
 			0 => AdjacentlyTagged::A(()),
 			1 => AdjacentlyTagged::B(gen_int!(rng, u8), gen_str(rng)),
 			2 => AdjacentlyTagged::C { u: (), n: gen_int!(rng, i16) },
 			_ => AdjacentlyTagged::D,
 		}),
-		56 => Datum::Untagged(match rng.below(4) {
+		56 => Datum::Untagged(match rng.below(6) {
+			4 => Untagged::F(F64(gen_finite_f64(rng))),
+			5 => Untagged::G { fl: F64(gen_finite_f64(rng)), opt: [None, Some(F32(gen_finite_f32(rng)))][rng.below(2)] },
 			0 => Untagged::U { a: (), b: gen_int!(rng, i32) },
 			1 => Untagged::V(gen_str(rng)),
 			2 => Untagged::W((0..short(rng)).map(|_| gen_int!(rng, u8)).collect()),
@@ -513,7 +542,7 @@ pub fn gen_datum(rng: &mut Rng, depth: usize) -> Datum {
 		}),
 		57 => Datum::Flattening(Flattening {
 			id: gen_int!(rng, u32),
-			inner: FlatInner { u: (), n: gen_int!(rng, u8), p: std::marker::PhantomData },
+			inner: FlatInner { u: (), n: gen_int!(rng, u8), x: F64(gen_finite_f64(rng)), p: std::marker::PhantomData },
 			opt: [None, Some(-1)][rng.below(2)],
 		}),
 		58 => Datum::Arr0([]),
